@@ -412,7 +412,7 @@ func c09R3(c *Ctx) {
 			for _, ap := range CallsTo(host, "builtin:append") {
 				elems, whole := c09AppendedElems(ap)
 				// append(queue, slices.DeleteFunc(danglings, isTagged)...): keeps exactly the untagged ones
-				if df, isCall := whole.(*ssa.Call); whole != nil && isCall && CalleeName(df) == "slices.DeleteFunc" && len(df.Call.Args) == 2 && dAliases[df.Call.Args[0]] {
+				if df := c09DeleteFuncOf(whole, dAliases); df != nil {
 					nEnq++
 					usesInline = true
 					ok := c09GuardedUp(c.P, ap.(ssa.Instruction), nil, autoGCEdges, 2)
@@ -1037,6 +1037,29 @@ func c09TaggedTests(fn *ssa.Function, e ssa.Value) (tagged, untagged []Edge) {
 	return
 }
 
+// c09DeleteFuncOf: whole is slices.DeleteFunc(X, pred) where X is the slice (or a
+// slices.Clone of it); nil otherwise.
+func c09DeleteFuncOf(whole ssa.Value, slice map[ssa.Value]bool) *ssa.Call {
+	if whole == nil {
+		return nil
+	}
+	for _, rt := range Roots(c09Resolved(whole)) {
+		df, ok := rt.(*ssa.Call)
+		if !ok || CalleeName(df) != "slices.DeleteFunc" || len(df.Call.Args) != 2 {
+			return nil
+		}
+		src := c09Resolved(df.Call.Args[0])
+		if cl, isCall := src.(*ssa.Call); isCall && CalleeName(cl) == "slices.Clone" && len(cl.Call.Args) == 1 {
+			src = c09Resolved(cl.Call.Args[0])
+		}
+		if !slice[src] {
+			return nil
+		}
+		return df
+	}
+	return nil
+}
+
 // c09PredIs: the function value pred is (a bound-method or trivial wrapper of) target.
 func c09PredIs(pred ssa.Value, target *ssa.Function) bool {
 	if target == nil {
@@ -1236,26 +1259,23 @@ func c09R4(c *Ctx) {
 					usesAlg = usesAlg || c09Uses(pv, alg, 0)
 				}
 				if !usesAlg {
-					// the directory may come in as a parameter of the sweeping helper: it must be built, at every
-					// call site, from the value the algorithm was taken from
-					algOs, okA := c09Origins(c.P, alg, 2, nil)
-					for _, pv := range pathVals {
-						for _, prm := range T.Params {
-							if !c09Uses(pv, prm, 0) {
-								continue
-							}
-							dirOs, okD := c09Origins(c.P, prm, 2, nil)
-							all := okA && okD && len(dirOs) > 0 && len(algOs) > 0 && !(len(dirOs) == 1 && dirOs[0] == ssa.Value(prm))
-							for _, d := range dirOs {
-								hit := false
-								for _, a := range algOs {
-									if c09Uses(d, strip(a), 0) {
-										hit = true
+					// the directory may come in as a parameter of the sweeping helper: at every place the helper is
+					// entered from, it must be built from the value the algorithm is taken from
+					if sites, closed := c09SitesOf(c.P, T); closed && len(sites) > 0 {
+						for _, pv := range pathVals {
+							for _, prm := range T.Params {
+								if !c09Uses(pv, prm, 0) {
+									continue
+								}
+								all := true
+								for _, cs := range sites {
+									dv, av := cs.Tr(prm), cs.Tr(alg)
+									if dv == nil || av == nil || !(c09Uses(dv, strip(av), 0) || c09Uses(dv, c09Resolved(strip(av)), 0)) {
+										all = false
 									}
 								}
-								all = all && hit
+								usesAlg = usesAlg || all
 							}
-							usesAlg = usesAlg || all
 						}
 					}
 				}
@@ -1287,37 +1307,16 @@ func c09R4(c *Ctx) {
 							}
 							continue
 						}
-						// lookup table: `if !knownAlgorithms[alg] { continue }` on a package-level map
-						var lk *ssa.Lookup
-						switch u := cond.(type) {
-						case *ssa.Lookup:
-							lk = u
-						case *ssa.Extract:
-							if x, isLk := u.Tuple.(*ssa.Lookup); isLk {
-								lk = x
+						// any other membership test: lookup table, slices.Contains over a package-level list,
+						// go-digest's registry, or an in-module predicate built from those
+						if consts, registry, isSet := c09AlgSetOf(c.P, cond, algV, 0); isSet {
+							for _, k := range consts {
+								inlineAlgs[k] = true
 							}
-						}
-						if lk != nil && c09ValEq(strip(lk.Index), algV) {
-							if keys, isTable := c09GlobalMapKeys(c.P, lk.X); isTable {
-								for _, k := range keys {
-									inlineAlgs[k] = true
-								}
-								known = append(known, t)
+							if registry {
+								registryTest = true
 							}
-							continue
-						}
-						call, isCall := cond.(*ssa.Call)
-						if !isCall || len(call.Call.Args) != 1 || !c09ValEq(strip(call.Call.Args[0]), algV) {
-							continue
-						}
-						if CalleeName(call) == "(digest.Algorithm).Available" {
-							known = append(known, t) // go-digest's own registry: every storable algorithm
-							registryTest = true
-							continue
-						}
-						if g := StaticCallee(call); g != nil && inModule(g) && len(StringConstsComparedWith(g, func(ssa.Value) bool { return true })) > 0 {
 							known = append(known, t)
-							knownFns[g] = true
 						}
 					}
 					return known
@@ -1356,6 +1355,178 @@ func c09R4(c *Ctx) {
 		}
 	}
 	c09R4GcIndex(c, R4, h)
+}
+
+// c09AlgSetOf: the bool value v is true exactly when arg is a member of a fixed
+// set of strings: a lookup in a package-level table, slices.Contains over a
+// package-level list, go-digest's Algorithm.Available, or a call of an in-module
+// predicate whose result is one of those in terms of its parameter (or which
+// compares its parameter with string constants).
+func c09AlgSetOf(p *Prog, v ssa.Value, arg ssa.Value, depth int) (consts []string, registry, ok bool) {
+	if depth > 2 {
+		return nil, false, false
+	}
+	same := func(x ssa.Value) bool { return c09ValEq(strip(x), strip(arg)) }
+	switch u := v.(type) {
+	case *ssa.Lookup:
+		if same(u.Index) {
+			if keys, isTable := c09GlobalMapKeys(p, u.X); isTable {
+				return keys, false, true
+			}
+		}
+	case *ssa.Extract:
+		if lk, isLk := u.Tuple.(*ssa.Lookup); isLk && u.Index == 1 {
+			return c09AlgSetOf(p, lk, arg, depth)
+		}
+	case *ssa.Call:
+		n := CalleeName(u)
+		args := u.Call.Args
+		switch {
+		case n == "(digest.Algorithm).Available" && len(args) == 1 && same(args[0]):
+			return nil, true, true
+		case n == "slices.Contains" && len(args) == 2 && same(args[1]):
+			if keys, isList := c09GlobalSliceConsts(p, args[0]); isList {
+				return keys, false, true
+			}
+		case n == "slices.Index" || n == "slices.IndexFunc":
+			return nil, false, false
+		}
+		g := StaticCallee(u)
+		if g == nil || !inModule(g) || len(g.Blocks) == 0 || len(args) == 0 {
+			return nil, false, false
+		}
+		pi := -1
+		for i, a := range args {
+			if same(a) {
+				pi = i
+			}
+		}
+		if pi < 0 || pi >= len(g.Params) {
+			return nil, false, false
+		}
+		all := map[string]bool{}
+		okAll, anyReg := true, false
+		atoms := RetAtoms(g, 0)
+		structured := len(atoms) > 0
+		for _, a := range atoms {
+			if _, isConst := a.Val.(*ssa.Const); isConst {
+				structured = false // `switch x { case …: return true }`: constants compared in the body
+				break
+			}
+			cs, reg, ok := c09AlgSetOf(p, a.Val, g.Params[pi], depth+1)
+			if !ok {
+				okAll = false
+			}
+			anyReg = anyReg || reg
+			for _, k := range cs {
+				all[k] = true
+			}
+		}
+		if structured && okAll {
+			return c09SortedKeys(all), anyReg, true
+		}
+		if cs := StringConstsComparedWith(g, func(ssa.Value) bool { return true }); len(cs) > 0 {
+			return cs, false, true
+		}
+	}
+	return nil, false, false
+}
+
+// c09GlobalSliceConsts: s is (a load of) a package-level slice variable of the
+// module initialised with constant strings and never written elsewhere.
+func c09GlobalSliceConsts(p *Prog, sv ssa.Value) ([]string, bool) {
+	rs := Roots(sv)
+	if len(rs) != 1 {
+		return nil, false
+	}
+	// a local literal: known := [...]T{a, b, c}; … known[:]
+	if sl, isSlice := rs[0].(*ssa.Slice); isSlice {
+		if arr, isAlloc := sl.X.(*ssa.Alloc); isAlloc {
+			keys := map[string]bool{}
+			ok := true
+			for _, ref := range *arr.Referrers() {
+				switch u := ref.(type) {
+				case *ssa.IndexAddr:
+					for _, r2 := range *u.Referrers() {
+						es, isSt := r2.(*ssa.Store)
+						if !isSt || es.Addr != ssa.Value(u) {
+							ok = false
+							continue
+						}
+						if k, isC := constString(es.Val); isC {
+							keys[k] = true
+						} else {
+							ok = false
+						}
+					}
+				case *ssa.Slice, *ssa.DebugRef:
+				default:
+					ok = false
+				}
+			}
+			if ok && len(keys) > 0 {
+				return c09SortedKeys(keys), true
+			}
+			return nil, false
+		}
+	}
+	ld, ok := rs[0].(*ssa.UnOp)
+	if !ok || ld.Op != token.MUL {
+		return nil, false
+	}
+	g, ok := ld.X.(*ssa.Global)
+	if !ok || g.Pkg == nil {
+		return nil, false
+	}
+	init := g.Pkg.Func("init")
+	if init == nil {
+		return nil, false
+	}
+	keys := map[string]bool{}
+	complete := true
+	AllInstrs(init, func(in ssa.Instruction) {
+		st, ok := in.(*ssa.Store)
+		if !ok || st.Addr != ssa.Value(g) {
+			return
+		}
+		sl, isSlice := st.Val.(*ssa.Slice)
+		if !isSlice {
+			complete = false
+			return
+		}
+		arr, isAlloc := sl.X.(*ssa.Alloc)
+		if !isAlloc {
+			complete = false
+			return
+		}
+		for _, ref := range *arr.Referrers() {
+			if ia, isIA := ref.(*ssa.IndexAddr); isIA {
+				for _, r2 := range *ia.Referrers() {
+					if es, isSt := r2.(*ssa.Store); isSt && es.Addr == ssa.Value(ia) {
+						if k, isC := constString(es.Val); isC {
+							keys[k] = true
+						} else {
+							complete = false
+						}
+					}
+				}
+			}
+		}
+	})
+	for f := range p.All {
+		if f == init || f.Pkg != g.Pkg {
+			continue
+		}
+		AllInstrs(f, func(in ssa.Instruction) {
+			if st, ok := in.(*ssa.Store); ok && st.Addr == ssa.Value(g) {
+				complete = false
+			}
+		})
+	}
+	if !complete || len(keys) == 0 {
+		return nil, false
+	}
+	return c09SortedKeys(keys), true
 }
 
 // c09GlobalMapKeys: m is a load of a package-level map variable of the module that
